@@ -168,6 +168,13 @@ pub fn run(s: &dyn Subject, ctx: &Ctx) -> Option<DeclReport> {
                     if (*c == Ordering::Equal) != eqm[i][j] {
                         rep.violate("cmp-equal-iff-eq-broken", input.clone(), format!("cmp {:?}, == {}", c, eqm[i][j]), "consistent".into(), String::new());
                     }
+                    // the comparison operators are what sorting, `max`, `clamp` and users call: each must say what `cmp` says
+                    if let Some((_, lt, le, gt, ge)) = o.outer.pord {
+                        let want = (*c == Ordering::Less, *c != Ordering::Greater, *c == Ordering::Greater, *c != Ordering::Less);
+                        if (lt, le, gt, ge) != want {
+                            rep.violate("operators-disagree-with-cmp", input.clone(), format!("< {lt}, <= {le}, > {gt}, >= {ge}"), format!("cmp {:?}", c), String::new());
+                        }
+                    }
                 }
                 Some(Err(p)) => rep.violate("cmp-panics", input.clone(), format!("PANIC({p})"), "an Ordering".into(), String::new()),
                 None => {}
